@@ -6,4 +6,5 @@ for p in "$@"; do
   timeout 1500 ./check "$p" --tier quick 2>&1 | grep -E "VIOLATION|KNOWN|quick:" | cut -c1-260
 done
 git -C /repo checkout -- .
+git checkout -q -- evidence 2>/dev/null    # evidence written on the patched tree is not kept
 git -C /repo status --short | head -3
